@@ -109,6 +109,24 @@ void single_flavour(Life &L) {
     simfs::set_current_op((int)i);
     switch (o.kind) {
       case O_OPEN:
+        if (!L.db && !L.created && o.b >= 1) {
+          // lifecycle calls on things that do not exist yet
+          string none = "/sim/none" + std::to_string(nbak++);
+          if (o.b == 1) { // error_if_exists on a fresh directory is not an error
+            opt.set(p.cfg, true); opt.o.error_if_exists = 1;
+            int rc = ldb_open(L.dir.c_str(), &opt.o, &L.db);
+            opt.o.error_if_exists = 0;
+            if (rc != LDB_OK) { violation("C20", "open_failed", "ldb_open with error_if_exists on a directory without a database fails: %s", rcname(rc)); L.db = nullptr; break; }
+            L.created = true; lock_must_be(L, true, "after open"); check_model(L, "after open");
+            probe("error_if_exists_on_fresh_dir");
+            break;
+          }
+          DbOptions o2; o2.set(p.cfg, true);
+          if (o.b == 2) { int rc = ldb_copy(none.c_str(), (none + "-copy").c_str(), &o2.o); if (rc == LDB_OK) violation("C20", "copy_of_nothing", "ldb_copy of a directory that does not exist reports success"); if (simfs::exists(none)) violation("C20", "copy_of_nothing", "ldb_copy of a directory that does not exist created it"); }
+          else if (o.b == 3) { int rc = ldb_destroy(none.c_str(), &o2.o); if (rc != LDB_OK) violation("C20", "destroy_of_nothing", "ldb_destroy of a directory that does not exist fails: %s", rcname(rc)); if (simfs::exists(none)) violation("C20", "destroy_of_nothing", "ldb_destroy of a directory that does not exist created it"); }
+          probe("lifecycle_on_missing_dir");
+          break;
+        }
         if (!L.db) {
           opt.set(p.cfg, true);
           int rc = ldb_open(L.dir.c_str(), &opt.o, &L.db);
@@ -363,7 +381,8 @@ Plan gen_life(uint64_t seed, const string &prop) {
   }
   p.sc = random_sched(r, false);
   int nops = (int)r.range(6, 40);
-  { Op o; o.kind = O_OPEN; p.ops.push_back(o); }
+  if (r.chance(0.25)) { Op o; o.kind = O_OPEN; o.b = (int)r.range(2, 3); p.ops.push_back(o); } // copy / destroy of a directory that does not exist
+  { Op o; o.kind = O_OPEN; if (r.chance(0.2)) o.b = 1; p.ops.push_back(o); }                       // b=1: first open with error_if_exists
   for (int i = 0; i < nops; i++) {
     Op o; int c = (int)r.below(100);
     if (c < 30) { o.kind = O_WRITE; int n = (int)r.range(1, 4); for (int q = 0; q < n; q++) { Upd u; char kb[32]; snprintf(kb, sizeof kb, "lk%02d", (int)r.below(10)); u.key = kb; u.del = r.chance(0.2); if (!u.del) { u.tag = tag++; u.len = r.chance(0.85) ? (uint32_t)r.range(10, 2000) : (uint32_t)r.range(20000, 70000); u.fill = (int)r.below(2); } o.ups.push_back(u); } }
